@@ -117,6 +117,17 @@ MemoHit(memoOn) ==
      ELSE /\ st' = "ko" /\ UNCHANGED <<tree, tix, pos, maxTok>>
           /\ ev' = <<<<"enter", RuleOf(cur), pos, tix>>, <<"hit", 0, pos, tix, 0>>>>
   /\ nhit' = nhit + 1 /\ UNCHANGED <<memo, stk, cur, nadd>>
+\* -inline (L1002): a rule referenced exactly once has no function of its own: no enter, memo check, store, exit,
+\* and its failure goes to the caller's failure continuation without a restore; only the token is added
+InlineEnter(B, Inl) ==
+  /\ st = "eval" /\ IsCall(cur) /\ RuleOf(cur) \in Inl
+  /\ Descend([k |-> "inl", r |-> RuleOf(cur), sp |-> pos], IF IsAct(cur) THEN Nil ELSE B[cur.r]) /\ Silent
+InlineOk ==
+  /\ st = "ok" /\ stk # <<>> /\ Top.k = "inl"
+  /\ LET a == AddTok(tree, tix, maxTok, Top.r, Top.sp, pos) IN
+     tree' = a.tree /\ tix' = a.tix /\ maxTok' = a.maxTok /\ ev' = <<<<"add", Top.r, Top.sp, pos, a.tix>>>>
+  /\ Ret("ok") /\ nadd' = nadd + 1 /\ UNCHANGED <<pos, memo, nhit>>
+InlineKo == st = "ko" /\ stk # <<>> /\ Top.k = "inl" /\ Ret("ko") /\ Silent
 RuleEnter(memoOn, B) ==
   /\ st = "eval" /\ IsCall(cur) /\ ~(memoOn /\ <<RuleOf(cur), pos>> \in DOMAIN memo)
   /\ Descend([k |-> "rule", r |-> RuleOf(cur), sp |-> pos, sx |-> tix], IF IsAct(cur) THEN Nil ELSE B[cur.r])
@@ -145,6 +156,20 @@ Halt == /\ st \in {"ok", "ko"} /\ stk = <<>>
         /\ st' = (IF st = "ok" THEN "accept" ELSE "reject")
         /\ tree' = (IF st = "ok" THEN SubSeq(tree, 1, tix) ELSE tree)
         /\ ev' = <<>> /\ UNCHANGED <<pos, tix, maxTok, memo, stk, cur, nhit, nadd>>
+
+\* with -inline: calls of inlined rules take the Inline* actions, all others the rule wrapper
+StepInl(B, w, memoOn, Inl) ==
+  \/ MatchChr(w) \/ MatchRng(w) \/ MatchDot(w) \/ EvalNil \/ EvalPred
+  \/ SeqEnter \/ SeqNext \/ SeqOk \/ SeqKo
+  \/ AltSave \/ AltOk \/ AltRetry \/ AltKo
+  \/ OptSave \/ OptOk \/ OptKo
+  \/ StarSave \/ StarAgain \/ StarOut \/ PlusFirst \/ PlusLoop \/ PlusKo
+  \/ AndSave \/ AndOk \/ AndKo \/ NotSave \/ NotOk \/ NotKo
+  \/ CapEnter \/ CapAdd \/ CapKo
+  \/ InlineEnter(B, Inl) \/ InlineOk \/ InlineKo
+  \/ (IsCall(cur) /\ st = "eval" /\ RuleOf(cur) \notin Inl /\ (MemoHit(memoOn) \/ RuleEnter(memoOn, B)))
+  \/ RuleOk(memoOn) \/ RuleKo(memoOn)
+  \/ Halt
 
 Step(B, w, memoOn) ==
   \/ MatchChr(w) \/ MatchRng(w) \/ MatchDot(w) \/ EvalNil \/ EvalPred
